@@ -36,12 +36,24 @@ CHECKS = {
         'note': 'Trusted: shim, scripted SimRefClock/SimRtc stubs, the A.2 model. loop() sees the unwrapped 64-bit counter (no 32-bit multilib here); a defect that needs 32-bit unsigned long arithmetic is not observable.',
         'design': '§5.C14, Appendix A.2',
     },
+    'C08': {
+        'engine': 'simdev',
+        'technique': 'deterministic simulation: seeded interleavings of several clients over shared processors and evicting manager caches, fresh-processor reference, ddmin replay',
+        'text': 'Seeded search over call histories: 2-6 TimeZone clients of every binding kind share 1-2 processors per database or compete for ZoneManager caches of size 1..4; queries of all kinds with in-range, boundary and out-of-range / sentinel arguments, failing queries repeated and interleaved; every answer is compared with two freshly constructed processors in differently poisoned storage. Coverage of (binding, cache state, query, argument class) tuples and of ordered cached-year pairs is measured. Sampling, not the exhaustive 52x52 product per zone.',
+        'note': 'Trusted: shim, clang, that a processor constructed with its ZoneInfo is "fresh". Crashes that need no history are noted for C09, not reported here. The Python ZoneSpecifier half is a separate engine (pysim) run by the same command.',
+        'design': '§5.C08, Appendix A.3',
+    },
+    'C16': {
+        'engine': 'simdev',
+        'technique': 'deterministic simulation with crash/restart: save to a durable store, reboot with newly drawn managers / cache sizes / registries, restore; catalogue oracle',
+        'text': 'Seeded search over save -> (history, reboot, different cache size, different registry that does or does not contain the id) -> restore sequences for all five zone kinds plus manual/UTC/error; restored value must equal and answer like the one the same manager creates directly, manual offsets must round-trip and always read std+dst, absent ids must give the error zone, and operator== must agree with the catalogue for every pair of live clients after every step.',
+        'note': 'Trusted: shim, the simulator\'s catalogue (zone identity = ZoneInfo object, kind = getType()). Nothing is torn: the saved form is 5 bytes written whole, so the restart adds configuration diversity rather than new nondeterminism (DESIGN §5.C16 caveat). Crashes inside plain queries are left to C08/C09.',
+        'design': '§5.C16',
+    },
 }
 
 PENDING = {
-    'C08': 'claimed in DESIGN.md; check under construction in this session (tz-history profile) - listed here until it is registered',
     'C09': 'claimed in part in DESIGN.md; check under construction (device profile, sanitizer build)',
-    'C16': 'claimed in DESIGN.md; check under construction (tz-restore profile)',
     'C20': 'claimed (clause 1) in DESIGN.md; check under construction (detcompile)',
 }
 
